@@ -34,6 +34,13 @@ Fixpoint set_nth {A} (n : nat) (x : A) (l : list A) : list A :=
   | y :: r, S n' => y :: set_nth n' x r
   end.
 
+(* ghost sets are kept sorted so that states differing only in the order of bookkeeping coincide *)
+Fixpoint ins (x : nat) (l : list nat) : list nat :=
+  match l with
+  | [] => [x]
+  | y :: r => if (x <=? y)%nat then x :: l else y :: ins x r
+  end.
+
 (* absl::bit_ceil *)
 Definition bit_ceil (n : Z) : Z := if n <=? 1 then 1 else 2 ^ Z.log2_up n.
 
@@ -92,7 +99,6 @@ Inductive pc :=
 | WFill (id : nat) (rest : list nat) (p : nat) (child : nat)
 | WExit
 | BCheck                                           (* keep_balance: load _running *)
-| BSleep
 | BSweep (k : nat)                                 (* try_pop on worker k's local queue *)
 | BTake (k : nat) (it : item)                      (* inside the try_pop callback: enqueue_task -> global ticket *)
 | BFill (k : nat) (p : nat) (it : item)
@@ -143,9 +149,9 @@ Definition note_accept (s : st) (it : item) (loc : bool) : st :=
   | IMark _ => s
   | IFun id =>
     {| gq := gq s; lqs := lqs s; running := running s; threads := threads s; nex := nex s;
-       started := started s; finished := finished s; accepted := id :: accepted s;
-       acc_before := if stop_called s then acc_before s else id :: acc_before s;
-       acc_local := if loc then id :: acc_local s else acc_local s;
+       started := started s; finished := finished s; accepted := ins id (accepted s);
+       acc_before := if stop_called s then acc_before s else ins id (acc_before s);
+       acc_local := if loc then ins id (acc_local s) else acc_local s;
        stop_called := stop_called s; stop_returned := stop_returned s; log_at_stop := log_at_stop s |}
   end.
 Definition note_start (s : st) (id w : nat) : st :=
@@ -154,7 +160,7 @@ Definition note_start (s : st) (id w : nat) : st :=
      acc_local := acc_local s; stop_called := stop_called s; stop_returned := stop_returned s; log_at_stop := log_at_stop s |}.
 Definition note_finish (s : st) (id : nat) : st :=
   {| gq := gq s; lqs := lqs s; running := running s; threads := threads s; nex := nex s;
-     started := started s; finished := id :: finished s; accepted := accepted s; acc_before := acc_before s;
+     started := started s; finished := ins id (finished s); accepted := accepted s; acc_before := acc_before s;
      acc_local := acc_local s; stop_called := stop_called s; stop_returned := stop_returned s; log_at_stop := log_at_stop s |}.
 Definition note_stop_called (s : st) : st :=
   {| gq := gq s; lqs := lqs s; running := running s; threads := threads s; nex := nex s;
@@ -295,9 +301,10 @@ Definition after_sweep (c : config) (k : nat) : pc := if (S k <? nworkers c)%nat
 
 Definition step_bal (c : config) (s : st) (t : nat) (th : thread) : option st :=
   match tpc th with
-  | BCheck => if balance_continues (b2z (running s)) then Some (set_thread s t (goto th BSleep))
-              else Some (set_thread s t (goto th BExit))
-  | BSleep => Some (set_thread s t (goto th (if (0 <? nworkers c)%nat then BSweep 0 else BCheck)))
+  | BCheck =>                             (* load _running; sleep_for only delays and is not a step of its own *)
+    if balance_continues (b2z (running s))
+    then Some (set_thread s t (goto th (if (0 <? nworkers c)%nat then BSweep 0 else BCheck)))
+    else Some (set_thread s t (goto th BExit))
   | BSweep k =>
     match try_pop (lq_of s k) with
     | Some (it, q) => Some (set_thread (set_lq s k q) t (goto th (BTake k it)))
